@@ -22,16 +22,33 @@ def structure_mismatch(e_in, e_out):
     return None
 
 
+ILL_FORMED = ("component out of range", "unbound free index", "unbound index", "does not match shape")
+
+
+class OutputIllFormed(Exception):
+    pass
+
+
 def value_pairs(den, e_in, e_out, ctx=(), side=None, comps=None):
+    """Denote the input first (a failure there is the harness's problem), then the
+    output; an output that cannot be evaluated because it is ill-formed (component out
+    of range, unbound index, shape mismatch) is reported as such."""
     pairs = []
     where = []
     comps = comps if comps is not None else den.components(e_in)
+    todo = []
     for comp in comps:
         for idx in den.index_valuations(e_in):
-            a = den.ev(e_in, comp, idx, ctx, side)
+            todo.append((comp, dict(idx), den.ev(e_in, comp, idx, ctx, side)))
+    for comp, idx, a in todo:
+        try:
             b = den.ev(e_out, comp, idx, ctx, side)
-            pairs.append((a, b))
-            where.append((comp, dict(idx)))
+        except DenotationError as ex:
+            if any(m in str(ex) for m in ILL_FORMED):
+                raise OutputIllFormed(str(ex))
+            raise
+        pairs.append((a, b))
+        where.append((comp, idx))
     return pairs, where
 
 
@@ -53,6 +70,9 @@ def compare(name, e_in, e_out, env=None, *, ctx=(), side=None, timeout=20, lemma
     try:
         pairs, where = value_pairs(den, e_in, e_out, ctx, side)
         diffs = solve.flatten_diffs(pairs)
+    except OutputIllFormed as ex:
+        return outcome(name, "violated", detail=f"output expression is ill-formed: {ex}", sample=sample,
+                       twin=twin, witness={"structural": str(ex)})
     except DenotationError as ex:
         return outcome(name, "inconclusive", detail=f"denotation: {ex}", sample=sample, twin=twin)
     li = lemmas(den) if lemmas else ()
